@@ -38,6 +38,10 @@ def cloneObs (tw : TW) (j k : Nat) : WRes × TW := tw.ofObsOnly (tw.w.clone j k)
 /-- `operator=` -/
 def assignObs (tw : TW) (j k : Nat) : WRes × TW := tw.ofObsOnly (tw.w.assign j k)
 
+/-- `setRoot(nodeObject)` (AssociationGraphImplObserver.h:718, inherited): `getGraph()->setRoot(getNodeGraphid(newRoot))`;
+`setRoot` ends with `topologyHasChanged_()` -/
+def setRootObj (tw : TW) (k : Nat) (a : Obj) : WRes × TW := tw.ofO (tw.w.setRootObj k a) true
+
 /-- `TreeGraphImpl::removeSon(node, son)` (TreeGraphImpl.h:517) with the observers told -/
 def removeSonG (tw : TW) (n s : Nat) : GOut Unit × TW := touch (unit (tw.liftW (tw.w.g.unlink n s)))
 
@@ -122,6 +126,7 @@ inductive TWOpX where
   | assign (j k : Nat)
   | removeSon (k : Nat) (a s : Obj)
   | removeSons (k : Nat) (a : Obj)
+  | setRoot (k : Nat) (a : Obj)
 deriving Repr
 
 namespace TW
@@ -132,6 +137,7 @@ def stepX (tw : TW) : TWOpX → TW
   | .assign j k => (tw.assignObs j k).2
   | .removeSon k a s => (tw.removeSon k a s).2
   | .removeSons k a => (tw.removeSons k a).2.2
+  | .setRoot k a => (tw.setRootObj k a).2
 def runX (tw : TW) (ops : List TWOpX) : TW := ops.foldl stepX tw
 end TW
 
